@@ -290,6 +290,7 @@ BUILTIN_ENUMS = {
     'Bound': {'Included': 0, 'Excluded': 1, 'Unbounded': 2},
     'Entry': {'Occupied': 0, 'Vacant': 1},
     'Cow': {'Borrowed': 0, 'Owned': 1},
+    'ErrorKind': {'NotFound': 0, 'UnexpectedEof': 1, 'Other': 2, 'InvalidInput': 3, 'InvalidData': 4, 'PermissionDenied': 5},
 }
 
 
